@@ -146,6 +146,7 @@ def attachment_violations(pkg: dict, res: dict, nc: bool = False, matched_style:
     if not table or res.get("outcome") != "completed":
         return viols, stats
     seen: set[str] = set()
+    companions = _companions(table)
     # griffe's Sphinx parser folds the continuation lines of a `:param:` field into one line (reST semantics), and the plain
     # text parser has no notion of parameters: multi-line parameter descriptions are only judged for NumPy and Google style
     multiline_params = pkg.get("doc_style") in ("NUMPYDOC", "GOOGLE")
@@ -163,6 +164,16 @@ def attachment_violations(pkg: dict, res: dict, nc: bool = False, matched_style:
                     viols.append({"class": "docstring-text-outside-comment", "detail": {"path": rel, "line": lineno, "token": tok, "text": ln[:200],
                                                                                       "fingerprint": {"gkey": "outside"}}})
         for c in comments:
+            if matched_style:
+                # completeness inside one comment: where the description of a function/class arrived, the parameter, result
+                # and example texts of the same docstring must have arrived too (nothing of a docstring is dropped on the way)
+                for tok in set(_TOKEN.findall(c["text"])):
+                    if tok in companions and f"Summary {tok}" in c["text"]:
+                        missing = [t for t in companions[tok] if t not in c["text"]]
+                        if missing:
+                            viols.append({"class": "docstring-part-missing", "detail": {
+                                "path": rel, "line": c["line"], "token": tok, "missing": [dict(table[t], token=t) for t in missing[:4]],
+                                "comment": c["text"][:500], "fingerprint": {"gkey": "missing-" + table[missing[0]]["kind"]}}})
             for tok in _TOKEN.findall(c["text"]):
                 info = table.get(tok)
                 if info is None:
@@ -229,6 +240,21 @@ def attachment_violations(pkg: dict, res: dict, nc: bool = False, matched_style:
                         "comment": c["text"][:400], "fingerprint": {"gkey": f"wrong-element-{info['kind']}"}}})
     stats["tokens_seen"] = len(seen)
     return viols, stats
+
+
+def _companions(table: dict) -> dict[str, list[str]]:
+    """summary token of a function / class -> tokens of its parameter, result and example texts (same docstring)."""
+    by_owner: dict[str, list[str]] = {}
+    for tok, info in table.items():
+        if info["kind"] in ("P", "R", "X"):
+            by_owner.setdefault(info["owner"], []).append(tok)
+    out: dict[str, list[str]] = {}
+    for tok, info in table.items():
+        if info["kind"] == "F":
+            out[tok] = sorted(by_owner.get(info["owner"], []))
+        elif info["kind"] == "C":
+            out[tok] = sorted(by_owner.get(info["owner"] + ".__init__", []) + by_owner.get(info["owner"], []))
+    return out
 
 
 def make_cases(seed: int, tier: str, n_cases: int | None = None) -> list[dict]:
